@@ -92,10 +92,14 @@ inline int numbers_in(std::string s, const std::string& abbr, long double* out, 
   return n; }
 template <class Q, class = void> struct has_print_unit : std::false_type {};
 template <class Q> struct has_print_unit<Q, std::void_t<decltype(std::declval<const Q&>().Print(Q::Unit()))>> : std::true_type {};
+template <class Q, class U, U u, class T> Q create_components(const T* c, std::integral_constant<int, 2>) { return Q::template Create<u>(c[0], c[1]); }
+template <class Q, class U, U u, class T> Q create_components(const T* c, std::integral_constant<int, 3>) { return Q::template Create<u>(c[0], c[1], c[2]); }
+template <class Q, class U, U u, class T> Q create_components(const T* c, std::integral_constant<int, 6>) { return Q::template Create<u>(c[0], c[1], c[2], c[3], c[4], c[5]); }
+template <class Q, class U, U u, class T> Q create_components(const T* c, std::integral_constant<int, 9>) { return Q::template Create<u>(c[0], c[1], c[2], c[3], c[4], c[5], c[6], c[7], c[8]); }
 // Ad as in battery; U unit enum; u unit value (compile time)
 template <class Ad, class U, U u> void accessors(const char* Qn, const char* un, uint64_t seed, int reps) {
   using Q = typename Ad::Q; using T = typename Ad::T; constexpr int N = Ad::N; std::mt19937_64 g(seed);
-  Acc ctor, val, sval, create, create_arr, prt, jsn, xml, yml, rb; const char* nm = NumName<T>::c;
+  Acc ctor, val, sval, create, create_arr, create_cmp, prt, jsn, xml, yml, rb; const char* nm = NumName<T>::c;
   std::string abbr(PhQ::Abbreviation(u));
   for (int r = 0; r < reps; r++) {
     T c[9]; fill(g, c, N, r == 0 ? 0 : 1);
@@ -106,13 +110,15 @@ template <class Ad, class U, U u> void accessors(const char* Qn, const char* un,
     { T keep[9] = {0}; getc(q, keep); auto v = q.Value(u); T o[9]; put(v, o); for (int i = 0; i < N; i++) { val.cmp(o[i], PhQ::Convert(st[i], PhQ::Standard<U>, u)); rb.cmp_scaled(o[i], c[i], st[i]); } T after[9] = {0}; getc(q, after); for (int i = 0; i < N; i++) if (!bat::biteq(keep[i], after[i])) val.arg_modified++; }
     { auto v = q.template StaticValue<u>(); T o[9]; put(v, o); for (int i = 0; i < N; i++) sval.cmp(o[i], PhQ::Convert(st[i], PhQ::Standard<U>, u)); }
     { Q k = Q::template Create<u>(raw); T o[9]; getc(k, o); for (int i = 0; i < N; i++) create.cmp(o[i], PhQ::Convert(c[i], u, PhQ::Standard<U>)); }
-    if constexpr (N > 1) { std::array<T, N> a; for (int i = 0; i < N; i++) a[i] = c[i]; Q k = Q::template Create<u>(a); T o[9]; getc(k, o); for (int i = 0; i < N; i++) create_arr.cmp(o[i], PhQ::Convert(c[i], u, PhQ::Standard<U>)); }
+    if constexpr (N > 1) { std::array<T, N> a; for (int i = 0; i < N; i++) a[i] = c[i]; Q k = Q::template Create<u>(a); T o[9]; getc(k, o); for (int i = 0; i < N; i++) create_arr.cmp(o[i], PhQ::Convert(c[i], u, PhQ::Standard<U>));
+      // the overload taking the components one by one
+      Q kc = create_components<Q, U, u, T>(c, std::integral_constant<int, N>{}); getc(kc, o); for (int i = 0; i < N; i++) create_cmp.cmp(o[i], PhQ::Convert(c[i], u, PhQ::Standard<U>)); }
     { auto v = q.Value(u); T o[9]; put(v, o); long double got[12];
       auto chk = [&](Acc& a, const std::string& s) { int k = numbers_in(s, abbr, got, 12); if (k != N) { a.ident_bad++; return; } for (int i = 0; i < N; i++) a.cmp((T)got[i], o[i]); if (s.find(abbr) == std::string::npos) a.ident_bad++; };
       chk(prt, q.Print(u)); chk(jsn, q.JSON(u)); chk(xml, q.XML(u)); chk(yml, q.YAML(u)); }
   }
   emit(Qn, "construct_in_unit", un, "std", nm, ctor); emit(Qn, "Value(unit)", "std", un, nm, val); emit(Qn, "StaticValue<unit>", "std", un, nm, sval);
-  emit(Qn, "Create<unit>", un, "std", nm, create); if (N > 1) emit(Qn, "Create<unit>(array)", un, "std", nm, create_arr);
+  emit(Qn, "Create<unit>", un, "std", nm, create); if (N > 1) { emit(Qn, "Create<unit>(array)", un, "std", nm, create_arr); emit(Qn, "Create<unit>(components)", un, "std", nm, create_cmp); }
   emit(Qn, "Print(unit)", "std", un, nm, prt); emit(Qn, "JSON(unit)", "std", un, nm, jsn); emit(Qn, "XML(unit)", "std", un, nm, xml); emit(Qn, "YAML(unit)", "std", un, nm, yml);
   emit(Qn, "read_back", un, un, nm, rb);
 }
